@@ -401,6 +401,14 @@ def check_level(ctx, pre, T, rng, npoints, deep):
         st, sl = v
         ctx.check(same_multiset(st, tr[idx]) and sl == len(idx), pre + ":for_indexes.same_triangles", triangles=tr, indexes=idx,
                   expected=tr[idx], got=st)
+    # --- the same selection with some indices counted from the end (np.arange(-k, 0), wrap-around i-1 at i = 0): NumPy's meaning
+    signed = np.where(rng.random(len(idx)) < 0.5, idx - n, idx)
+    signed[0] = idx[0] - n
+    ok, v = ctx.guarded(pre + ":for_indexes.same_triangles", lambda: (lambda S: (tri(S), len(S)))(T.for_indexes(signed)))
+    if ok:
+        st, sl = v
+        ctx.check(same_multiset(st, tr[signed]) and sl == len(signed), pre + ":for_indexes.same_triangles", selector="indices counted from the end",
+                  triangles=tr, indexes=signed, expected=tr[signed], got=st)
     # --- the same selection handed over as a boolean mask (what Shape.mask returns): the selected triangles, in order
     bm = np.zeros(n, dtype=bool)
     bm[idx] = True
